@@ -289,6 +289,14 @@ func rotationRepeat(t *testing.T, r *ev.Run) {
 // factory must find the new system key in the cache: one KMS unwrap per system key per interval, however many
 // partitions follow.
 func rotationInPlace(t *testing.T, r *ev.Run) {
+	// the rotation happens 2 min after the keys' lifetime ran out, or 30 s after it - inside the first
+	// CreateDatePrecision unit after expiry
+	for _, past := range []time.Duration{2 * time.Minute, 30 * time.Second} {
+		rotationInPlaceAt(t, r, past)
+	}
+}
+
+func rotationInPlaceAt(t *testing.T, r *ev.Run, past time.Duration) {
 	for _, nc := range []namedCfg{{"simple", world.Default(0, 0, 0)}, {"lru100", func() world.Cfg {
 		c := world.Default(0, 0, 0)
 		c.IKPolicy, c.IKCap, c.SKPolicy, c.SKCap = "lru", 100, "slru", 100
@@ -302,7 +310,7 @@ func rotationInPlace(t *testing.T, r *ev.Run) {
 		c.SessCache, c.SessCap, c.SessDur = true, 100, 10000 * time.Hour
 		return c
 	}()}} {
-		name := "rotation-in-place/" + nc.name
+		name := fmt.Sprintf("rotation-in-place/%s/%s-past-expiry", nc.name, past)
 		journal("c20 " + name)
 		func() {
 			defer func() {
@@ -319,6 +327,7 @@ func rotationInPlace(t *testing.T, r *ev.Run) {
 				c.w.MS.WhoFn = func() string { return c.scope }
 				defer c.w.Close()
 				time.Sleep(27 * time.Second)
+				born := time.Now().Truncate(time.Minute) // the creation stamp the first keys will carry
 				f := c.w.Factory(cfg, "svc", "prod")
 				mk := func(part string) *c20sess {
 					s, _ := f.GetSession(part)
@@ -334,7 +343,7 @@ func rotationInPlace(t *testing.T, r *ev.Run) {
 				// keep the cached keys fresh right up to their expiry, then let them expire while cached
 				time.Sleep(E - 2*time.Minute)
 				c.op(cs, nil, "", []byte("x"), ikid)
-				time.Sleep(4 * time.Minute) // both keys are expired now, their cache entries are still fresh
+				time.Sleep(time.Until(born.Add(E + past))) // both keys are expired now, their cache entries are still fresh
 				c.done = map[string]bool{}  // what follows is a new generation: nothing is a repeat yet
 				c.op(cs, nil, "", []byte("x"), ikid) // rotates in place
 				c.op(cs, nil, "", []byte("x"), ikid) // repeat: no external call
